@@ -19,6 +19,19 @@ theorem tokGuardFires_nonempty (ty : String) (gd : Guard)
     (s : String) (hs : s ≠ "") : tokGuardFires ty gd (some s) = true := by
   cases gd <;> simp_all [tokGuardFires]
 
+theorem shParse_ok (w : ShWorld) (argv : List String) (top : ShTop) (h : shParse w argv = .ok top) :
+    parseShTop (argv.length + 1) argv.tail {} = .ok top := by
+  unfold shParse at h
+  cases hp : parseShTop (argv.length + 1) argv.tail {} with
+  | error o => simp [hp] at h
+  | ok top' =>
+    simp only [hp] at h
+    split at h
+    · split at h
+      · cases h
+      · cases h; rfl
+    · cases h; rfl
+
 /-- T-C07.5 (general) for every such table: with a NON-EMPTY seed token on the command line the whole outcome of the
 run (text or failure kind, number of answers consumed) does not depend on the state the generator had at start —
 for every `σ`, every input text, every command line -/
@@ -43,10 +56,10 @@ theorem shuffleRunTable_deterministic (σ : String → List Shuffle.Draw) (w : S
             simp only [hev] at ht
             unfold shSeedOf at hs
             simp only [shRunFrom, isOutput, Bool.false_eq_true, if_false, shStep]
-            cases hp : parseShTop (argv.length + 1) argv.tail {} with
+            cases hp : shParse w argv with
             | error o => rfl
             | ok top =>
-              rw [hp] at hs
+              rw [shParse_ok w argv top hp] at hs
               simp only at hs
               simp only [hs, tokGuardFires_nonempty (seedTy t) gd ht s hne, if_true]
           | _ => simp [hev] at ht
@@ -76,7 +89,11 @@ theorem decimal_token_nonempty (v : String) (h : (decimal? v).isSome = true) : v
 
 /-! witnesses -/
 
-def shWorld : ShWorld := ⟨"<stdin>", [("generator", "CNFgen")]⟩
+def shWorld : ShWorld := { inputName := "<stdin>", baseHeader := [("generator", "CNFgen")] }
+
+/-- a world with one file: `in.cnf` -/
+def shFileWorld : ShWorld :=
+  { shWorld with files := fun tok => if tok == "in.cnf" then some "p cnf 2 1\n1 0\n" else none }
 
 /-- the EMPTY seed token is ignored by `if args.seed:` — the output then depends on the initial state.  Not a
 violation of the property (the empty string is not an integer seed); recorded as an observation. -/
@@ -90,7 +107,28 @@ theorem empty_seed_token_is_ignored :
 the state installed by the seed decides the output, the initial state does not -/
 example :
     shuffleRun (fun _ => [.shuffled [2, 1]]) shWorld ["cnfshuffle", "-q", "--seed", "0", "-p", "-c"] "p cnf 2 1\n1 0\n"
-      [.shuffled [1, 2]] = (.text "p cnf 2 1\n2 0\n", 1) ∧
+      [.shuffled [1, 2]] = (.text "p cnf 2 1\n2 0\n", 1, []) ∧
     shSeedOf ["cnfshuffle", "-q", "--seed", "0", "-p", "-c"] = some "0" := by decide +kernel
+
+/-- T-C07.5 with `-i` / `-o`: the text written to the OUTPUT FILE (and the empty stdout) is independent of the initial
+generator state too — `shuffleRun_deterministic` is about the whole result, this is its projection -/
+theorem shuffleRun_file_output_deterministic (σ : String → List Shuffle.Draw) (w : ShWorld) (argv : List String)
+    (stdin : String) (s : String) (hs : shSeedOf argv = some s) (hne : s ≠ "") (r₁ r₂ : List Shuffle.Draw) :
+    (shuffleRun σ w argv stdin r₁).2.2 = (shuffleRun σ w argv stdin r₂).2.2 := by
+  rw [shuffleRun_deterministic σ w argv stdin s hs hne r₁ r₂]
+
+/-- with `-i` the text on stdin is not read: the run is a function of the FILE's content (the environment) -/
+theorem shuffleRun_input_file_ignores_stdin :
+    shuffleRun (fun _ => [.shuffled [2, 1]]) shFileWorld ["cnfshuffle", "--seed", "5", "-p", "-c", "-i", "in.cnf"] "garbage" [] =
+    shuffleRun (fun _ => [.shuffled [2, 1]]) shFileWorld ["cnfshuffle", "--seed", "5", "-p", "-c", "-i", "in.cnf"] "" [] := by
+  decide +kernel
+
+/-- recorded shape of `cnfshuffle -q --seed 5 -p -c -i in.cnf -o out.cnf`: nothing on stdout, the formula in the file;
+a missing input file is an argparse error -/
+example :
+    shuffleRun (fun _ => [.shuffled [2, 1]]) shFileWorld ["cnfshuffle", "-q", "--seed", "5", "-p", "-c", "-i", "in.cnf", "-o", "out.cnf"]
+      "ignored" [.shuffled [1, 2]] = (.text "", 1, [("out.cnf", "p cnf 2 1\n2 0\n")]) ∧
+    shuffleRun (fun _ => []) shFileWorld ["cnfshuffle", "--seed", "5", "-i", "missing.cnf"] "" [] = (.cliError, 0, []) ∧
+    shSeedOf ["cnfshuffle", "-q", "--seed", "5", "-p", "-c", "-i", "in.cnf", "-o", "out.cnf"] = some "5" := by decide +kernel
 
 end Cnfgen.C07
